@@ -373,7 +373,7 @@ def run(ctx):
                       loc=c.loc, construct="visit-result")
     with ctx.rule("C07.SEED", "every initial root is handed to some worker's deque", floor=1, kind="FLOW") as r:
         seed_rule(ctx, r)
-    with ctx.rule("C07.STEAL", "pop falls back to steal; steal visits every other worker and never itself", floor=3, kind="FLOW") as r:
+    with ctx.rule("C07.STEAL", "pop falls back to steal; steal visits every other worker and never itself", floor=4, kind="FLOW") as r:
         p = facts.with_closures(W + "::Stack::pop")
         if any(c.path == W + "::Stack::steal" for g in p for c in g.calls()) and \
                 any(c.path.endswith("Worker::pop") for g in p for c in g.calls()):
@@ -396,6 +396,23 @@ def run(ctx):
                 r.bad("steal|order", "steal does not visit right[1..] then left", fn=s, construct="steal")
         else:
             r.bad("steal|order", "steal no longer splits the stealers at its own index and skips itself", fn=s, construct="steal")
+        # between the chain over the other deques and whatever consumes it, nothing may drop an element: a worker that never
+        # looks into some deque never sees the quit message parked there (the domino re-pushes it into the sender's own deque)
+        keeping = ("map", "inspect", "by_ref", "peekable", "into_iter", "rev", "filter_map", "flat_map", "copied", "cloned", "enumerate",
+                   "find_map", "find", "try_fold", "fold", "for_each", "any", "all", "try_for_each", "next")
+        if ch:
+            droppers = []
+            for c in s.calls():
+                if c.bb != ch[0].bb and c.path.startswith("core::iter::traits::iterator::Iterator::") and \
+                        any(is_call(x, "core::iter::traits::iterator::Iterator::chain") for x in walk(ebs.operand(c.args[0]))):
+                    if c.path.rsplit("::", 1)[1] not in keeping:
+                        droppers.append(c)
+            if droppers:
+                r.bad("steal|all", "steal passes the sweep over the other deques through `%s`, which can leave some of them unvisited: a quit "
+                      "message parked in a deque nobody else looks into is never received and the traversal does not end"
+                      % droppers[0].path.rsplit("::", 1)[1], fn=s, loc=droppers[0].loc, construct="steal")
+            else:
+                r.ok("steal|all", "every element of the chain reaches the consumer (no take/skip/step_by/… on the way)", fn=s)
         st = facts.with_closures(W + "::Stack::steal")
         if any(c.path.endswith("Stealer::steal_batch_and_pop") or c.path.endswith("Stealer::steal") for g in st for c in g.calls()):
             r.ok("steal|op", "steals through the crossbeam Stealer API", fn=s, nontrivial=False)
